@@ -303,7 +303,7 @@ func Quiesce() {
 // explores; natively they switch the enforcement of a recorded schedule on and off.
 func SchedBegin() { vsched.Enable(true) }
 func SchedEnd()   { vsched.Enable(false) }
-func FireTimers() int { return 0 }
+func FireTimers() int { return vsched.FireAll() }
 
 func HashUF(code uint64, n int, data []byte) []byte {
 	panic("vrt.HashUF is only meaningful under the engine")
